@@ -1920,25 +1920,58 @@ void Generator::GeneratorImpl::addImplementationInitialiseVariablesMethodCode(st
         //       guess. We use an initial guess of zero, which is fine since
         //       such an NLA system has only one solution.
 
+        // Note: a variable may be initialised using another variable, in which
+        //       case that other variable is to be initialised first.
+
         std::string methodBody;
+        std::vector<AnalyserVariablePtr> variablesToInitialise;
 
         for (const auto &variable : mModel->variables()) {
             switch (variable->type()) {
             case AnalyserVariable::Type::CONSTANT:
-                methodBody += generateInitialisationCode(variable);
+                variablesToInitialise.push_back(variable);
 
                 break;
             case AnalyserVariable::Type::COMPUTED_CONSTANT:
             case AnalyserVariable::Type::ALGEBRAIC:
-                if (variable->initialisingVariable() != nullptr) {
-                    methodBody += generateInitialisationCode(variable);
-                } else if (variable->equation(0)->type() == AnalyserEquation::Type::NLA) {
-                    methodBody += generateZeroInitialisationCode(variable);
+                if ((variable->initialisingVariable() != nullptr)
+                    || (variable->equation(0)->type() == AnalyserEquation::Type::NLA)) {
+                    variablesToInitialise.push_back(variable);
                 }
 
                 break;
             default: // Other types we don't care about.
                 break;
+            }
+        }
+
+        auto someVariablesInitialised = true;
+
+        while (!variablesToInitialise.empty()) {
+            auto initialiseAnyway = !someVariablesInitialised; // Some variables are initialised using one another.
+
+            someVariablesInitialised = false;
+
+            for (auto it = variablesToInitialise.begin(); it != variablesToInitialise.end();) {
+                auto initialisingVariable = (*it)->initialisingVariable();
+                auto initialisable = true;
+
+                if ((initialisingVariable != nullptr)
+                    && !isCellMLReal(initialisingVariable->initialValue())) {
+                    auto initialValueVariable = analyserVariable(owningComponent(initialisingVariable)->variable(initialisingVariable->initialValue()));
+
+                    initialisable = std::find(variablesToInitialise.begin(), variablesToInitialise.end(), initialValueVariable) == variablesToInitialise.end();
+                }
+
+                if (initialisable || initialiseAnyway) {
+                    methodBody += (initialisingVariable != nullptr) ?
+                                      generateInitialisationCode(*it) :
+                                      generateZeroInitialisationCode(*it);
+                    it = variablesToInitialise.erase(it);
+                    someVariablesInitialised = true;
+                } else {
+                    ++it;
+                }
             }
         }
 
